@@ -308,8 +308,10 @@ func (s *Store) cb(ctx context.Context, kind uint8) (injected error) {
 		var empty []int
 		_ = empty[n] // a genuine runtime.Error: index out of range
 	}
+	blocked := false
 	if d := delay + lat; d > 0 {
 		s.block(func() { time.Sleep(d) })
+		blocked = true
 	}
 	if doStall {
 		s.mu.Lock()
@@ -327,8 +329,13 @@ func (s *Store) cb(ctx context.Context, kind uint8) (injected error) {
 				s.mu.Unlock()
 			}
 		})
+		blocked = true
 	}
-	if ye > 0 && n%ye == 0 && kind != KAt && kind != KSSAt && kind != KItErr && kind != KSSErr {
+	if blocked {
+		// several sleepers can wake at the same fake instant, in an order nobody controls: each
+		// hands control back to the scheduler before it touches anything
+		sched.Yield("store.woke")
+	} else if ye > 0 && n%ye == 0 && kind != KAt && kind != KSSAt && kind != KItErr && kind != KSSErr {
 		sched.Yield("store." + KindNames[kind])
 	}
 	return injected
